@@ -298,6 +298,14 @@ class NetRunner:
                 rep.finding(f2, {"property": pid, "finding": f2, "cfg": small, "case": name,
                                  "how": f"./check {pid} --replay <this file>"})
 
+        if pid == "C11":
+            import staticprops
+            tbf, nchk = staticprops.testbench_findings(drv)
+            stats["testbench-example-pairs"] = nchk
+            for f in tbf:
+                if f["claim"] not in reported_claims:
+                    reported_claims.add(f["claim"])
+                    rep.finding(f, {"property": pid, "finding": f, "cfg": None, "case": "testbench"})
         for name, cfg in corpus_cases(pid):
             handle(name, {"family": "corpus"}, cfg)
         for name, meta, cfg in generated_cases(pid, tier, seed):
